@@ -746,6 +746,25 @@ func BlockedThreads() []string {
 	return out
 }
 
+// LiveThreads lists every controlled thread that has not finished (running, runnable, sleeping or blocked).
+func LiveThreads() []string {
+	s := cur
+	if s == nil {
+		return nil
+	}
+	var out []string
+	for _, t := range s.threads {
+		if !t.done && t != s.running {
+			d := "runnable"
+			if t.op != nil {
+				d = t.op.desc
+			}
+			out = append(out, t.name+": "+d)
+		}
+	}
+	return out
+}
+
 // Closed reports whether a (virtual) channel has been closed.
 func Closed(ch any) bool {
 	s := cur
